@@ -134,6 +134,8 @@ class Counters:
                 ss = st.strong(b)
                 if not (ss <= LIVE):
                     eng.violate("TS-7", "inc-on-dead", "the strong count of %s is raised although the object may be dead (strong-state %s): a dead object would be revived" % (show(b), "".join(sorted(ss))), ev.b, st)
+                if ("inc_pending", "Rc", b) in st.flags:
+                    eng.violate("TS-9", "double-increment:Rc", "the strong count of %s is raised twice for one new handle" % show(b), ev.b, st)
                 return add(st, ("inc_pending", "Rc", b))
             if cls == "dec":
                 if self.entry_kind == "rc_drop" and b == self.self_box:
@@ -153,6 +155,8 @@ class Counters:
             return None
         # weak
         if cls == "inc":
+            if ("inc_pending", "Weak", b) in st.flags:
+                eng.violate("TS-9", "double-increment:Weak", "the weak count of %s is raised twice for one new handle" % show(b), ev.b, st)
             return add(st, ("inc_pending", "Weak", b))
         if cls == "dec":
             dead = st.strong(b) <= DEAD
